@@ -124,6 +124,29 @@ class P(Prop):
             out.append(dict(op="wire", ty=ty, v=[rng.choice(INF) for _ in range(n)], meta={"class": "value_inf/" + ty.split("<")[0]}))
             out.append(dict(op="wire", ty=ty, v=[self.whole(rng) for _ in range(n)], meta={"class": "value_whole/" + ty.split("<")[0]}))
             out.append(dict(op="wire", ty=ty, v=[rng.choice(EXT) for _ in range(n)], meta={"class": "value_extreme/" + ty.split("<")[0]}))
+        # subnormal numbers in EVERY position of every value type (finite: goes through the text format as well)
+        SUB = [C.bits(5e-324), C.bits(-5e-324), C.bits(3e-310), C.bits(-1.5e-315), C.bits(2.2250738585072009e-308), C.bits(1e-320)]
+        for ty in base:
+            n = 2 if ty == "Knot" else G.arity(ty)
+            out.append(dict(op="wire", ty=ty, v=[rng.choice(SUB) for _ in range(n)], meta={"class": "value_subnormal/" + ty.split("<")[0]}))
+            v = [C.bits(rng.uniform(-3, 3)) for _ in range(n)]
+            v[rng.randrange(n)] = rng.choice(SUB)
+            out.append(dict(op="wire", ty=ty, v=v, meta={"class": "value_subnormal/" + ty.split("<")[0]}))
+        # ADJACENT pieces that compare equal (==) but differ in bits: zeros of opposite sign in the same position; exact repeats next to them
+        for _ in range(12 if tier == "quick" else 150):
+            t = rng.choice(G.ALL_TYPES)
+            n = G.arity(t) + 1
+            cnt = rng.randint(2, 6)
+            proto = [C.bits(rng.choice([0.0, -0.0, 2.0, -1.5, 0.0])) for _ in range(n)]
+            segs = []
+            for i in range(cnt):
+                sgm = list(proto)
+                sgm[0] = C.bits(float(i + 1))
+                for j in range(1, n):
+                    if C.fl(sgm[j]) == 0.0 and rng.random() < 0.6:
+                        sgm[j] = C.bits(rng.choice([0.0, -0.0]))
+                segs.append(sgm)
+            out.append(dict(op="wire", ty="Piecewise<%s>" % t, segs=segs, meta={"class": "piecewise/equal_but_for_zero_signs"}))
         for _ in range(40 if tier == "quick" else 500):
             t = rng.choice(G.ALL_TYPES)
             n = G.arity(t) + 1
